@@ -4,6 +4,7 @@ import sys
 sys.path.insert(0, os.path.dirname(os.path.abspath(__file__)))
 import common
 import solvecheck
+from solvecheck import F, I, B
 
 THEOREMS = ["Pyvsc.C14.maxProp_keeps", "Pyvsc.C14.capLast_sub", "Pyvsc.C14.minProp_keeps", "Pyvsc.C14.inProp_keeps",
             "Pyvsc.C14.bit_candidate", "Pyvsc.C14.target_returned", "Pyvsc.C14.untouched_full",
@@ -18,9 +19,40 @@ RULE = ("as C01, biased to what bound inference reads: top-level relational and 
         "rand set (<= 13 random bits) - each value a field takes in some solution must lie in the range the library inferred; a "
         "field no statement mentions must keep its whole type")
 
+def free_standing_ranges(ck, tier):
+    """Free-standing calls (vsc.randomize_with(x, y)) on plain fields - some declared rand, some not, some passed, some not -
+    with inline relations whose one side is a compound expression over another field.  What counts for the inference is
+    whether a field is random *in this call* (passed), not how it was declared; a field that is not passed contributes the
+    value it holds.  Inferred ranges are compared with the model's and judged by enumeration, as in the class scenarios."""
+    import random
+    import freecheck
+    rng = random.Random("C14/free/%d" % ck.seed)
+    scns = []
+    for _ in range(300 if tier == "thorough" else 24):
+        nf = rng.randint(2, 3)
+        fields = [{"name": "f%d" % i, "w": rng.choice([3, 4]), "s": False, "rand": rng.random() < 0.4, "val": rng.randint(0, 7), "enums": None}
+                  for i in range(nf)]
+        calls = []
+        for _c in range(rng.randint(1, 3)):
+            passed = sorted(rng.sample(range(nf), rng.randint(2, nf)))
+            a, b = rng.sample(passed, 2) if rng.random() < 0.7 else rng.sample(range(nf), 2)
+            rhs = B(rng.choice(["add", "add", "mul"]), F(b), I(rng.randint(0, 2)))
+            kind = rng.random()
+            if kind < 0.75:
+                st = {"k": "expr", "e": B(rng.choice(["lt", "le", "ge", "gt", "eq"]), F(a), rhs)}
+            else:
+                st = {"k": "expr", "e": {"k": "in", "e": F(a), "rl": [{"lo": I(0), "hi": rhs}]}}
+            calls.append({"passed": passed, "inline": [st], "seed": rng.randrange(1 << 30),
+                          "set": [[i, rng.randint(0, 7)] for i in range(nf) if rng.random() < 0.5]})
+        scns.append({"fields": fields, "calls": calls, "free": True})
+    freecheck.run(ck, 0, extra=scns)
+    ck.sample({"kind": "free-standing calls: inferred ranges", "scenarios": len(scns)})
+
+
 if __name__ == "__main__":
     common.run_main(lambda: solvecheck.standard_main(
         "C14", ["C14", "C14Fix", "C14Bridge"], THEOREMS, PROFILE, 300, 12000,
         ["as C01 for the solve itself", "uniformity of random.Random.randint is assumed for the probability reading of target_returned",
          "generator restricted to one signedness per scenario without wrap-around (F21 is replayed by its witness)"],
-        RULE, bounds=True))
+        RULE + "; plus free-standing calls on plain fields (declared rand or not, passed or not) with one inline relation against a "
+        "compound expression over another field", bounds=True, extra=free_standing_ranges))
